@@ -38,7 +38,7 @@ SHARDS = {'quick': 16, 'thorough': 16}
 TIMEOUT = {'quick': 1200, 'thorough': 7200}
 FLOOR = {'quick': 150, 'thorough': 1500}
 REQUIRED_MONITORS = {'schedules-executed': 100, 'context-switches-inside-monitored-code': 100,
-                     'stress-renders': 1000, 'history-renders': 500, 'loader-history-renders': 500, 'M-args': 500, 'cross-process-outputs': 20}
+                     'stress-renders': 1000, 'history-renders': 500, 'loader-history-renders': 500, 'M-args': 500, 'cross-process-outputs': 20, 'pool-orders-rendered': 16}
 RULE = ('(d) a case = one executed schedule of 2 threads over a scenario in {first (lazy) render of a fresh file template, '
         'render of an auto-reload template whose file changed before both calls, first load+render through a shared '
         'loader, load: chain}; schedules: A advanced k line-steps then B to completion (every k until A finishes, both '
@@ -185,6 +185,85 @@ def cross_process_corpus():
     for k in range(60):
         corpus['generated-%02d' % k] = gen_order_template(rng)
     return corpus
+
+
+# ---- order independence across templates ---------------------------------------------------------------
+POOL = [
+    # (name, class, source, constructor options, render arguments)
+    ('plain-var', 'xml', '<p>${helper}|${site}</p>', {}, {'helper': 'H', 'site': 'S'}),
+    ('with-builtins', 'xml', '<p>${helper}|${site}</p>', {'extra_builtins': {'helper': 'B1', 'site': 'B2'}}, {}),
+    ('text-plain-var', 'text', 'Hello ${site} and ${helper}', {}, {'helper': 'H', 'site': 'S'}),
+    ('text-with-builtins', 'text', 'Hello ${site} and ${helper}', {'extra_builtins': {'helper': 'B1', 'site': 'B2'}}, {}),
+    ('define-helper', 'xml', '<p tal:define="helper 5">${helper}</p><i tal:repeat="site (1, 2)">${site}</i>', {}, {}),
+    ('rejected-below-interpolation-off', 'xml', '<div meta:interpolation="off"><p tal:content="a" tal:replace="b">${x}</p></div>', {}, {}),
+    ('rejected-unknown-statement-below-off', 'xml', '<div meta:interpolation="false"><b><p tal:nosuch="1">${x}</p></b></div>', {}, {}),
+    ('interpolates', 'xml', '<p>${x}<!-- ${x} --><![CDATA[${x}]]></p>', {}, {'x': 'X'}),
+    ('text-interpolates', 'text', 'v=${x}', {}, {'x': 'X'}),
+    ('loops-over-x', 'xml', '<p tal:repeat="x (1, 2, 3)">${repeat.x.number}/${repeat.x.length}</p>', {}, {}),
+    ('asks-for-repeat-x', 'xml', '<p tal:content="exists: repeat.x">?</p><i tal:repeat="x (7,)">${repeat.x.index}${repeat.x.end}</i>', {}, {}),
+    ('lambda-parameter', 'xml', '<p tal:define="f lambda n, site=1: n + site">${f(1)}</p>', {}, {}),
+    ('reads-n', 'xml', '<p>${n}|${site|\'-\'}</p>', {}, {'n': 'N'}),
+    ('strict-invalid', 'xml', '<p tal:condition="False">${bad +}</p>ok', {'strict': True}, {}),
+    ('non-strict-invalid', 'xml', '<p tal:condition="False">${bad +}</p>ok', {'strict': False}, {}),
+    ('boolean-default', 'xml', '<input checked="${c}" />', {}, {'c': 1}),
+    ('boolean-none', 'xml', '<input checked="${c}" />', {'boolean_attributes': set()}, {'c': 1}),
+    ('global-define', 'xml', '<a tal:define="global gg 1">${gg}</a>', {}, {}),
+    ('reads-gg', 'xml', '<a tal:content="gg | \'unset\'"/>', {}, {}),
+]
+
+
+def render_pool(order_seed):
+    """Compile and render every pool entry, in the order given by the seed, in THIS process."""
+    from chameleon import PageTemplate, PageTextTemplate
+    order = list(range(len(POOL)))
+    random.Random('pool-%s' % order_seed).shuffle(order)
+    out = {}
+    for i in order:
+        name, kind, src, cfg, args = POOL[i]
+        cls = PageTextTemplate if kind == 'text' else PageTemplate
+        for again in range(2):
+            try:
+                res = cls(src, **cfg)(**args)
+                if isinstance(res, bytes):
+                    res = res.decode('utf-8')
+            except Exception as e:
+                res = 'RAISED %s' % type(e).__name__
+            out['%s#%d' % (name, again)] = res
+    return out
+
+
+POOL_SNIPPET = r'''
+import sys, json
+sys.path.insert(0, %r)
+from checks.c14 import render_pool
+print(json.dumps(render_pool(sys.argv[1])))
+'''
+
+
+def layer_order_independence(ctx, norders):
+    """What a template renders does not depend on which OTHER templates were compiled or rendered before it in the
+    process: the same pool in differently shuffled orders, each order in a fresh interpreter."""
+    results = {}
+    for k in range(norders):
+        seed = '%s-%d-%d' % (os.environ.get('VERIF_SEED', '0'), ctx.shard, k)
+        p = subprocess.run([env.PY, '-c', POOL_SNIPPET % env.VERIF, seed], env=env.child_env({}), capture_output=True, text=True,
+                           timeout=300, cwd=env.VERIF)
+        if p.returncode:
+            ctx.mark_inconclusive('order-independence child failed: ' + p.stderr[-300:])
+            return
+        results[seed] = json.loads(p.stdout)
+        ctx.mon('pool-orders-rendered')
+    seeds = sorted(results)
+    ref = results[seeds[0]]
+    for key in sorted(ref):
+        ctx.mon('pool-entries-compared', len(seeds))
+        ctx.case(key=('pool', key), nontrivial=True)
+        for sd in seeds[1:]:
+            if results[sd].get(key) != ref[key]:
+                ctx.violation('output-depends-on-templates-handled-before',
+                              'pool entry %s: order %s gives %r, order %s gives %r' % (key, seeds[0], ref[key], sd, results[sd].get(key)),
+                              {'kind': 'pool', 'entry': key, 'orders': [seeds[0], sd]})
+                break
 
 
 def layer_cross_process(ctx):
@@ -514,6 +593,7 @@ def run(ctx):
     layer_histories(ctx, 40 if ctx.quick else 600)
     layer_loader_histories(ctx, 25 if ctx.quick else 400)
     layer_cross_process(ctx)
+    layer_order_independence(ctx, 3 if ctx.quick else 8)
     layer_stress(ctx, 3 if ctx.quick else 30)
     layer_scheduler(ctx)
 
